@@ -18,3 +18,17 @@ impl<S: Source> AssetCache<S> {
         AssetCache { reloader, assets: AssetMap::verif_single_shard(), source }
     }
 }
+
+#[cfg(kani)]
+#[allow(dead_code)]
+impl AssetMap {
+    /// Ghost constructor: two shards (shard selection becomes observable).
+    pub(crate) fn verif_two_shards() -> AssetMap {
+        let hash_builder = RandomState::new();
+        let shards: Box<[Shard]> = Box::new([
+            Shard(RwLock::new(HashMap::with_hasher(hash_builder.clone()))),
+            Shard(RwLock::new(HashMap::with_hasher(hash_builder.clone()))),
+        ]);
+        AssetMap { hash_builder, shards }
+    }
+}
